@@ -259,4 +259,95 @@ theorem addedObjs_opsOfRegs (regs : List (Nat × Decl)) : ∀ o ∈ addedObjs (o
     · obtain ⟨q, hq, he⟩ := ih o h
       exact ⟨q, List.mem_cons_of_mem _ hq, he⟩
 
+/-! ### object level: a link joins the two objects that one `relate` call found in the slots it named -/
+
+theorem addedObjs_append (a b : List Op) : addedObjs (a ++ b) = addedObjs a ++ addedObjs b := by
+  induction a with
+  | nil => rfl
+  | cons op a iha => cases op <;> simp [addedObjs, iha]
+
+/-- `z` and `w` were, at the moment of one `relate(*ks)` call of the sequence, the introspectables found in the
+slots `ks` named -/
+def LinkedBy (E : IState) (ops : List Op) (z w : Obj) : Prop :=
+  ∃ pre ks rest xs, ops = pre ++ Op.relate true ks :: rest ∧ lookupAll (runOps E pre) ks = .ok xs ∧ z ∈ xs ∧ w ∈ xs
+
+theorem linkedBy_snoc {E : IState} {ops : List Op} {z w : Obj} (op : Op) (h : LinkedBy E ops z w) :
+    LinkedBy E (ops ++ [op]) z w := by
+  obtain ⟨pre, ks, rest, xs, h1, h2, h3, h4⟩ := h
+  exact ⟨pre, ks, rest ++ [op], xs, by rw [h1]; simp, h2, h3, h4⟩
+
+theorem links_objects_snoc {U : List Obj} (hU : ValInj U) {E : IState} {ops : List Op} {S : IState}
+    (hS : S = runOps E ops) (inv : RelInv U S)
+    (hl : ∀ z w, w ∈ relatedOf S z → LinkedBy E ops z w) (op : Op) :
+    ∀ z w, w ∈ relatedOf (step S op) z → LinkedBy E (ops ++ [op]) z w := by
+  intro z w hw
+  cases op with
+  | add o info => exact linkedBy_snoc _ (hl z w hw)
+  | get c d => exact linkedBy_snoc _ (hl z w hw)
+  | remove c d =>
+    obtain ⟨S', hr, _, hspec⟩ := relInv_remove hU inv c d
+    simp only [step, hr] at hw
+    cases hp : peek S c d with
+    | none =>
+      have : S' = touch S c := by
+        simp only [remove, peek_touch, hp] at hr
+        cases hr; rfl
+      subst this
+      exact linkedBy_snoc _ (hl z w hw)
+    | some e =>
+      exact linkedBy_snoc _ (hl z w ((hspec e hp z w).mp hw).1)
+  | relate rel ks =>
+    simp only [step] at hw
+    split at hw
+    · rename_i S' hr
+      obtain ⟨xs, hxs, hspec⟩ := relate_spec hU inv hr
+      rw [hspec z w] at hw
+      cases rel with
+      | true =>
+        simp only [if_true] at hw
+        rcases hw with hw | ⟨h1, h2, _⟩
+        · exact linkedBy_snoc _ (hl z w hw)
+        · exact ⟨ops, ks, [], xs, rfl, hS ▸ hxs, h1, h2⟩
+      | false =>
+        simp only [Bool.false_eq_true, if_false] at hw
+        exact linkedBy_snoc _ (hl z w hw.1)
+    · exact linkedBy_snoc _ (hl z w hw)
+
+theorem links_objects_from {U : List Obj} (hU : ValInj U) (E : IState) (ops : List Op) :
+    ∀ (ops0 : List Op) {S : IState}, S = runOps E ops0 → RelInv U S →
+      (∀ z w, w ∈ relatedOf S z → LinkedBy E ops0 z w) → (∀ o ∈ addedObjs ops, o ∈ U) →
+      ∀ z w, w ∈ relatedOf (runOps S ops) z → LinkedBy E (ops0 ++ ops) z w := by
+  induction ops with
+  | nil => intro ops0 S _ _ hl _ z w h; simpa using hl z w h
+  | cons op r ih =>
+    intro ops0 S hS inv hl hin z w h
+    have hop : ∀ o info, op = .add o info → o ∈ U := by
+      intro o info e
+      subst e
+      exact hin o (by simp [addedObjs])
+    have hin' : ∀ o ∈ addedObjs r, o ∈ U := fun o ho => hin o (mem_addedObjs_cons op r o ho)
+    have hS' : step S op = runOps E (ops0 ++ [op]) := by rw [runOps_snoc, hS]
+    have := ih (ops0 ++ [op]) hS' (relInv_step hU inv op hop) (links_objects_snoc hU hS inv hl op) hin' z w h
+    simpa [List.append_assoc] using this
+
+theorem links_objects {U : List Obj} (hU : ValInj U) (ops : List Op) (hin : ∀ o ∈ addedObjs ops, o ∈ U) :
+    ∀ z w, w ∈ relatedOf (runOps IState.empty ops) z → LinkedBy IState.empty ops z w := by
+  intro z w h
+  have := links_objects_from hU IState.empty ops [] (S := IState.empty) rfl (relInv_empty U)
+    (by intro z w h; simp [relatedOf, IState.empty, alookup] at h) hin z w h
+  simpa using this
+
+/-- several commits into the same introspector are one registration loop over the concatenated executed lists -/
+theorem registerAll_append (decls : Nat → List Decl) (a b : List Nat) (S : IState) :
+    registerAll decls (a ++ b) S = (match registerAll decls a S with
+      | .ok S1 => registerAll decls b S1
+      | .error x => .error x) := by
+  induction a generalizing S with
+  | nil => simp [registerAll]
+  | cons i r ih =>
+    simp only [List.cons_append, registerAll]
+    cases registerList i (decls i) S with
+    | error x => rfl
+    | ok S1 => exact ih S1
+
 end Pyr.Introspect
